@@ -131,6 +131,24 @@ ASSUME Expect(H("top", "post", <<O(FALSE, "E", 0)>>), <<"$", "E">>, TRUE).class 
 \* two operators for one descriptor: the last one wins
 ASSUME Expect(H("top", "post", <<O(FALSE, "E", 0), O(FALSE, "'F'", 0)>>), <<"a", "E", "$x", "F">>, TRUE).groups
        = << << <<"rd", "a", "0", "$x\n">> >>, << <<"probe", "end">> >> >>
+\* an empty delimiter (<<'') ends the body at the first empty line
+ASSUME Deliver(<<O(FALSE, "''", 0)>>, <<"a", "", "b">>, None) = [ok |-> TRUE, c |-> <<"a\n">>, rest |-> <<"b">>]
+\* XCU 2.7.4: "If the redirection operator is never evaluated ... the here-document shall be read without
+\* performing any expansions": the body is consumed, the next line is a command
+ASSUME LET e == Expect(H("never", "post", <<O(FALSE, "E", 0)>>), <<"$x", "E", "probe k">>, TRUE)
+       IN /\ e.script = <<Prelude, "status 1 && rd a 0 <<E", "$x", "E", "probe k", "probe end">>
+          /\ e.groups = << << <<"probe", "k">> >>, << <<"probe", "end">> >> >>
+\* exec keeps the descriptor open: a later command reads the document
+ASSUME LET e == Expect(H("exec", "post", <<O(TRUE, "E", 4)>>), <<"\t$x", "E", "probe k">>, TRUE)
+       IN /\ e.script = <<Prelude, "exec 4<<-E", "\t$x", "E", "probe k", "rd a 4", "probe end">>
+          /\ e.groups = << << <<"probe", "k">> >>, << <<"rd", "a", "4", "vx\n">> >>, << <<"probe", "end">> >> >>
+ASSUME Expect(H("exec", "post", <<O(TRUE, "E", 0)>>), <<"E">>, TRUE).class = "skip"
+\* the operator may come out of an alias substitution; the body follows the line that used the alias
+ASSUME Expect(H("alias", "post", <<O(FALSE, "'E'", 0)>>), <<"$x", "E">>, TRUE).script
+       = <<Prelude, "alias h=\"rd a 0 <<'E'\"", "h", "$x", "E", "probe end">>
+\* inside the operand of eval the body must be part of the operand
+ASSUME LET e == Expect(H("eval", "cat", <<O(FALSE, "E", 0)>>), <<"$x", "E">>, TRUE)
+       IN e.script = <<Prelude, "eval 'cat <<E", "$x", "E", "'", "probe end">> /\ e.out = "vx\n"
 ASSUME Expect(H("pipeNL", "post", <<O(FALSE, "E", 0)>>), <<"a", "E", "", "probe k">>, TRUE).groups
        = << << <<"rd", "a", "0", "a\n">>, <<"probe", "k">> >>, << <<"probe", "p">> >>, << <<"probe", "end">> >> >>
 =============================================================================
